@@ -863,9 +863,22 @@ impl Parser {
                     match self.next_lexem() {
                         Some(Lexem::Comma) => {}
                         Some(Lexem::RawString(ref ordering_field)) => {
-                            let actual_field = match ordering_field.parse::<usize>() {
-                                Ok(idx) if idx >= 1 && idx <= fields.len() => fields[idx - 1].clone(),
-                                Ok(_) => {
+                            // a number is a position in the select list, unless an arithmetic operator
+                            // follows: then it starts an expression (`order by 10 - length(name)`)
+                            let position = match ordering_field.parse::<usize>() {
+                                Ok(idx) => {
+                                    let next = self.next_lexem();
+                                    self.drop_lexem();
+                                    match next {
+                                        Some(Lexem::ArithmeticOperator(_)) => None,
+                                        _ => Some(idx),
+                                    }
+                                }
+                                _ => None,
+                            };
+                            let actual_field = match position {
+                                Some(idx) if idx >= 1 && idx <= fields.len() => fields[idx - 1].clone(),
+                                Some(_) => {
                                     return Err(String::from("Order by position is out of range"));
                                 }
                                 _ => {
